@@ -4,6 +4,7 @@
   Imports model modules only (core Lean), so it links as a `lean_exe`.
 -/
 import Vise.Driver.Codec
+import Vise.Driver.Cache
 
 open Vise.Driver
 
@@ -12,6 +13,7 @@ def main (args : List String) : IO UInt32 := do
   let stdout ← IO.getStdout
   match args with
   | ["codec"] => loop stdin stdout () codecStep; return 0
+  | ["cache"] => loop stdin stdout () cacheStep; return 0
   | _ =>
     IO.eprintln "usage: visemodel <suite>"
     return 2
